@@ -952,3 +952,43 @@ def ser_filter_rule(rep, F):
             continue
         rep.violation("SER-filter", "%s|%s" % k, "%s passes what it writes through `%s`: content the value holds is dropped on the wire, so the decoded value (and the re-encoded bytes of a decoded one) differ from the original" % k, {})
     rep.floor("CBOR writer functions inspected", 150, n)
+
+
+def boot_size_real_rule(rep, F):
+    """the batcher's bootstrap witness size is measured on a real encoding, not assembled from constants"""
+    import fieldflow as ff
+    rep.rule("BOOT-size-real", "CborCalculator::get_boostrap_witness_size returns the length of the serialised form (to_bytes().len()) of a bootstrap witness built for the address it is given: the attributes' own CBOR head grows from 1 to 2 bytes at 24 bytes (Daedalus addresses carry 34), which a constant + attributes().len() misses by one byte per witness - fee 44 lovelace below the minimum")
+    fid = find_fn(rep, F, "CborCalculator::get_boostrap_witness_size")
+    if not fid:
+        return
+    rep.inst("BOOT-size-real")
+    o = ff.Origins(F, fid).of_place("_0")
+    measured = any(x.startswith("call:") and x.split("@")[0].endswith("BootstrapWitness::to_bytes") for x in o) and any(x.startswith("call:") and x.split("@")[0].endswith("::len") for x in o)
+    built = any(x.startswith("call:") and ("bootstrap_witness" in x.split("@")[0]) for x in o) and "arg:1" in o
+    if not (measured and built):
+        rep.violation("BOOT-size-real", "CborCalculator::get_boostrap_witness_size", "get_boostrap_witness_size does not measure a serialised witness of its address (origins of the result: %s)" % sorted(x.split("@")[0] for x in o if x.startswith("call:"))[:5], {})
+
+
+def assetname_ord_rule(rep, F, RULE):
+    """AssetName's Ord = (length, bytes): total, canonical, and Equal only for equal names"""
+    fid = find_fn(rep, F, "<AssetName as std::cmp::Ord>::cmp")
+    if fid:
+        rep.inst(RULE)
+        hir = F.hir[fid]
+        ok = False
+        for n in H.walk(hir["body"]):
+            if n[0] == "match":
+                sc = H.strip(n[2])
+                if H.is_node(sc) and sc[0] == "mcall" and sc[2] == "cmp" and (H.path_str(sc[4]) or "").endswith(".len()") and (H.path_str(sc[5][0]) or "").endswith(".len()"):
+                    for pat, g, body in n[3]:
+                        if (H.pat_variant(pat) or "").endswith("Equal"):
+                            b = H.strip(body)
+                            if H.is_node(b) and b[0] == "mcall" and b[2] == "cmp" and H.path_str(b[4]) == "self.0":
+                                ok = True
+        if not ok:
+            rep.violation(RULE, "AssetName::cmp", "AssetName's Ord no longer compares lengths first and contents only on equal length (canonical CBOR key order)", {})
+    fidp = find_fn(rep, F, "<AssetName as std::cmp::PartialOrd>::partial_cmp")
+    if fidp:
+        rep.inst(RULE)
+        if not any((c.to or "").endswith("AssetName as std::cmp::Ord>::cmp") or F.key(c.to or "") == "<AssetName as std::cmp::Ord>::cmp" for c in F.calls(fidp)):
+            rep.violation(RULE, "AssetName::partial_cmp", "AssetName's PartialOrd does not delegate to its Ord", {})
